@@ -107,6 +107,7 @@ class Facts:
         self.impls = self.raw["impls"]
         self.structs = self.raw["structs"]
         self.ast = self.raw.get("ast") or {}
+        self.enums = {norm_path(e["path"]): [(v["name"], int(v["discr"])) for v in e["variants"]] for e in self.raw.get("enums", [])}
 
     def get(self, ident):
         l = self.by_ident.get(ident, [])
